@@ -146,7 +146,7 @@ pub fn run(rep: &mut Report, thorough: bool) {
     let mut rng = Rng::new(rep.seed.wrapping_mul(111_119));
     let shapes = if thorough { 8 } else { 2 };
     for shape in 0..shapes {
-        let cfg = TargetCfg { sentinels: 1 + (shape % 4) * 2, max_spinners: 0, heartbeats: 0, sleepers: shape % 3, exiters: 0, names: true, regions: 2, elf_files: shape % 2, fds: 2 + shape, stack_pages_max: 2, null_sp_threads: 0 };
+        let cfg = TargetCfg { sentinels: 1 + (shape % 4) * 2, max_spinners: 0, heartbeats: 0, sleepers: shape % 3, exiters: 0, names: true, regions: 2, elf_files: shape % 2, fds: 2 + shape, stack_pages_max: 2, null_sp_threads: 0, big_region_pages: 0 };
         let sc = match scen::build_target(&mut rng, &cfg) {
             Ok(s) => s,
             Err(e) => {
